@@ -258,8 +258,8 @@ func (t *Topic) handleCallEvent(msg *ClientComMessage) {
 
 	asUid := types.ParseUserId(msg.AsUser)
 
-	if _, userFound := t.perUser[asUid]; !userFound {
-		// User not found in topic.
+	if pud, userFound := t.perUser[asUid]; !userFound || pud.deleted {
+		// User not found in topic (or has unsubscribed).
 		logs.Warn.Printf("topic[%s]: could not find user %s", t.name, asUid.UserId())
 		return
 	}
